@@ -1,15 +1,15 @@
-\* quick: 4 lattices (cubic F, hexagonal, monoclinic, triclinic), 4 rings, ring pairs r1 <= r2, both tie rules,
+\* thorough: all 18 named lattices, first 5 rings, every ordered ring pair, both tie rules,
 \* block ends as written (bug) and repaired
 SPECIFICATION Spec
 CONSTANTS
   MODE = "rule"
-  Cells <- Cells_q
-  NR = 4
-  PairSel = "upper"
+  Cells <- Cells_t
+  NR = 5
+  PairSel = "all"
   TieRules = {"fwd", "rev"}
   BugEnds = {TRUE, FALSE}
   CRanges = {0, 2, 710}
-  Rots <- Rots_q
+  Rots <- Rots_t
 INVARIANT TypeOK
 INVARIANT CellLaws
 INVARIANT Complete
